@@ -73,3 +73,121 @@ def _(self: PROTO, length: Const(None)) -> Opaque():
                     == ref_crc(self.device.rx[0] if self.device.pos == len(result) + 5 else 0xA1, result)), label="returned-only-if-the-crc-matches")
     ensures(self.device.tx[len(self.device.tx) - 2:] == bytes([0x5A, 0xA1]), label="frame-was-acknowledged")
     modifies(self.device)
+
+
+# ----------------------------------------------------------------------------------------------------------------------
+# command layer: McuBoot.read_memory returns exactly the device's bytes, or does not report success
+# ----------------------------------------------------------------------------------------------------------------------
+# Ghost state: the device is a memory DEVMEM: address -> byte (uninterpreted: any content) that remembers address and byte count of the last
+# command it accepted (self._g_addr, self._g_len).  The two device-facing helpers are *assumed* to behave as the reference bootloader does:
+# _process_cmd delivers the command and reports the device's status; the data phase _read_data hands out the bytes at the address of the
+# last command, all of them exactly when it ends with status SUCCESS.  Everything else - how read_memory cuts the range into USB-HID sized
+# requests, where each request starts, how it reacts to a status - is the real code.
+from spsdk.mboot.commands import CmdHeader, CmdPacket, CommandTag, ReadMemoryResponse
+from spsdk.mboot.error_codes import StatusCode
+from spsdk.mboot.exceptions import McuBootCommandError
+from spsdk.mboot.mcuboot import McuBoot
+from spsdk.utils.interfaces.device.usb_device import UsbDevice
+
+inline("spsdk.mboot.mcuboot:_clamp_down_memory_id", "spsdk.mboot.mcuboot:McuBoot._get_max_packet_size", "spsdk.mboot.commands:CmdPacket.__init__",
+       "spsdk.mboot.commands:CmdHeader.__init__", "spsdk.mboot.mcuboot:McuBoot.status_code")
+
+
+@uninterpreted(result=Range(0, 255), native=True)
+def DEVMEM(addr):
+    return (addr * 7 + (addr >> 8) + 3) & 0xFF     # run time: the content of the fake device used by the sampler
+
+
+class _OtherDevice:
+    """Stands for every non-USB device (UART, ...)."""
+
+
+IFACE = Union[Obj("contracts.C10_mboot:_FakeIf", device=Obj(UsbDevice)), Obj("contracts.C10_mboot:_FakeIf", device=Obj(_OtherDevice))]
+MBT = Obj(McuBoot, _interface=IFACE, max_packet_size=OneOf(32, 56, 1016), _status_code=int, _cmd_exception=bool, _g_addr=int, _g_len=int)
+SUCCESS = StatusCode.SUCCESS.tag
+NO_RESPONSE = StatusCode.NO_RESPONSE.tag
+
+
+@assumed("spsdk.mboot.mcuboot:McuBoot._process_cmd", reason="device interaction (reference bootloader): the command reaches the device, which remembers its "
+         "address/count and answers with a status; a successful READ_MEMORY answer announces the requested byte count")
+def _(self: MBT, cmd_packet: Obj(CmdPacket, header=Obj(CmdHeader, tag=int, flags=int, reserved=int, params_count=int), params=ListOf(int, 3))
+      ) -> Obj(ReadMemoryResponse, status=int, length=int):
+    may_raise(McuBootConnectionError)
+    may_raise(McuBootCommandError)
+    ensures(self._g_addr == cmd_packet.params[0] and self._g_len == cmd_packet.params[1])
+    ensures(self._status_code == result.status)
+    ensures(implies(result.status == SUCCESS, result.length == cmd_packet.params[1]))
+    modifies(self._g_addr, self._g_len, self._status_code)
+
+
+@assumed("spsdk.mboot.mcuboot:McuBoot._read_data", reason="device interaction (reference bootloader): the data phase delivers bytes from the address of the last "
+         "accepted command, never more than asked for, and all of them exactly when it ends with status SUCCESS")
+def _(self: MBT, cmd_tag: Const(CommandTag.READ_MEMORY), length: int, progress_callback: Opaque()) -> bytes:
+    may_raise(McuBootConnectionError)
+    may_raise(McuBootCommandError)
+    ensures(len(result) <= length or length < 0)
+    ensures(forall(0, len(result), lambda k: result[k] == DEVMEM(self._g_addr + k)))
+    ensures(implies(self._status_code == SUCCESS and length >= 0, len(result) == length))
+    modifies(self._status_code)
+
+
+@contract("spsdk.mboot.mcuboot:McuBoot.read_memory", replay=False)
+def _(self: MBT, address: Nat, length: Range(0, 65536), mem_id: OneOf(0), progress_callback: OneOf(None), fast_mode: OneOf(False, True)) -> Optional[bytes]:
+    may_raise(McuBootConnectionError)
+    may_raise(McuBootCommandError)
+    ensures(implies(result is not None and self._status_code == SUCCESS,
+                    len(result) == length and forall(0, length, lambda k: result[k] == DEVMEM(address + k))),
+            label="success-means-exactly-the-requested-device-bytes")
+    ensures(implies(result is not None, forall(0, len(result), lambda k: result[k] == DEVMEM(address + k)) and len(result) <= length),
+            label="whatever-is-returned-is-a-prefix-of-the-device-bytes")
+    modifies(self._g_addr, self._g_len, self._status_code)
+    sample_with(lambda rnd: _sample_read(rnd))
+
+
+@invariant("spsdk.mboot.mcuboot:McuBoot.read_memory", loop=0)
+def _():
+    holds(idx <= packets and len(data) == (idx * payload_size if idx < packets else length))
+    holds(forall(0, len(data), lambda k: data[k] == DEVMEM(address + k)))
+    holds(implies(idx > 0, self._status_code == SUCCESS))
+
+
+class _FakeIf:
+    """Run-time stand-in for the protocol object: answers READ_MEMORY from DEVMEM (used by the sampled cross-check only)."""
+
+    def __init__(self, usb, fail_at=None):
+        self.device = object.__new__(UsbDevice) if usb else _OtherDevice()
+        self.is_opened = True
+        self.queue = []
+        self.fail_at = fail_at
+        self.count = 0
+
+    def write_command(self, packet):
+        from spsdk.mboot.commands import CmdResponse, GenericResponse, ResponseTag
+        import struct
+
+        addr, ln = packet.params[0], packet.params[1]
+        self.count += 1
+        bad = self.fail_at is not None and self.count == self.fail_at
+        hdr = CmdHeader(ResponseTag.READ_MEMORY.tag, 0, 0, 2)
+        self.queue.append(ReadMemoryResponse(hdr, struct.pack("<2I", 0, ln)))
+        data = bytes(DEVMEM(addr + k) for k in range(ln))
+        if bad:
+            data = data[: ln // 2]
+        for i in range(0, len(data), 32):
+            self.queue.append(data[i: i + 32])
+        self.queue.append(GenericResponse(CmdHeader(ResponseTag.GENERIC.tag, 0, 0, 2), struct.pack("<2I", 10100 if bad else 0, CommandTag.READ_MEMORY.tag)))
+
+    def read(self, length=None):
+        return self.queue.pop(0)
+
+
+def _sample_read(rnd):
+    mb = object.__new__(McuBoot)
+    ps = rnd.choice([32, 56, 1016])
+    length = rnd.choice([0, 1, ps - 1, ps, ps + 1, 2 * ps, 2 * ps + 5, rnd.randrange(0, 5000)])
+    mb._interface = _FakeIf(rnd.random() < 0.7, fail_at=rnd.choice([None, None, 1, 2, 3]))
+    mb.max_packet_size, mb._status_code, mb._cmd_exception = ps, 0, rnd.random() < 0.3
+    mb._g_addr = mb._g_len = 0
+    mb.reopen = False
+    return {"self": mb, "address": rnd.choice([0, 0x20000000, rnd.getrandbits(32)]), "length": length, "mem_id": 0, "progress_callback": None,
+            "fast_mode": rnd.random() < 0.2}
